@@ -32,7 +32,7 @@ func drawCall(r *rng.R, id uint64) rpcCall {
 // C04: every RPC call gets its own handler run, result and status.
 func C04(c *runner.Cfg) *report.Result {
 	res := report.New("C04", "")
-	res.Rule = "G concurrent callers issue seeded calls (unary via Request and via Channel+Response, oneway, server-/client-streaming, bidirectional, early response, late response; handler outcomes OK with bytes/string/message/nil results, application-defined codes with unicode messages, every standard code, deliberate panics) over 1..4 shared connections with a channel target of 2 (forces connection growth); a fifth of the requests carry 1..3 subservice calls in front of the method call which the handler must find unchanged; each request carries (call id, behaviour, stream length, size, crc) and the handler is a deterministic function of it, so the expected (result bytes, code, message, stream) is computed independently; oracles: result/status equality per call id, stream messages in order before the end, handler invocation count == 1 per issued call (oneway: after quiescence), a oneway call observed through Channel+Response is non-OK, C04/oneway-stall: oneway calls under a 250 ms timeout context while the client->server direction of a proxy is paused and the write queue is 16..256 KiB (nothing cut): after the proxy resumes every call that returned OK ran its handler exactly once and every non-OK call at most once (a failed send must not be reported as OK), malformed replies (garbage, truncated, wrong type, empty status) from a raw mpx server surface as non-OK; non-trivial = call with a non-empty result, a stream or a non-OK expectation; distinct = distinct call ids"
+	res.Rule = "G concurrent callers issue seeded calls (unary via Request and via Channel+Response, oneway, server-/client-streaming, bidirectional, early response, late response; handler outcomes OK with bytes/string/message/nil results, application-defined codes with unicode messages, every standard code, deliberate panics) over 1..4 shared connections with a channel target of 2 (forces connection growth); a fifth of the requests carry 1..3 subservice calls in front of the method call which the handler must find unchanged; each request carries (call id, behaviour, stream length, size, crc) and the handler is a deterministic function of it, so the expected (result bytes, code, message, stream) is computed independently; oracles: result/status equality per call id, stream messages in order before the end, handler invocation count == 1 per issued call (oneway: after quiescence), a oneway call observed through Channel+Response is non-OK, C04/long-streams: four concurrent streaming calls of 20 000+ small messages each, without and with compression; C04/oneway-stall: oneway calls under a 250 ms timeout context while the client->server direction of a proxy is paused and the write queue is 16..256 KiB (nothing cut): after the proxy resumes every call that returned OK ran its handler exactly once and every non-OK call at most once (a failed send must not be reported as OK), malformed replies (garbage, truncated, wrong type, empty status) from a raw mpx server surface as non-OK; non-trivial = call with a non-empty result, a stream or a non-OK expectation; distinct = distinct call ids"
 	logger := netx.NewRecLogger()
 	hooks := netx.Install(c.Seed)
 	if c.Variant != "race" {
@@ -145,6 +145,11 @@ func C04(c *runner.Cfg) *report.Result {
 		if round < 2 {
 			res.Sample(map[string]any{"round": round, "callers": G, "max_conns": opts.ClientMaxConns, "mode": mode, "compression": opts.Compression})
 		}
+	}
+	// long streams: tens of thousands of small stream messages per call, without and with
+	// compression (frames coalesce in the socket: frame headers straddle reads)
+	if !c.Abort.Load() {
+		longStreams(c, res, logger, srvSide, func() uint64 { return nextID.Add(1) })
 	}
 	// oneway calls whose send cannot complete (stalled outbound direction, small write queue)
 	if !c.Abort.Load() {
@@ -299,4 +304,65 @@ func malformed(c *runner.Cfg, res *report.Result, logger *netx.RecLogger) {
 		}
 	}
 	res.Observe("malformed_reply_kinds", names)
+}
+
+// longStreams: streaming calls of 20 000+ small messages each; the oracles are those of doCall
+// (every stream message in order, then the end and this call's result).
+func longStreams(c *runner.Cfg, res *report.Result, logger *netx.RecLogger, srvSide *rpcServerSide, nextID func() uint64) {
+	k := c.N(20000, 60000)
+	if c.Variant == "race" {
+		k = 2000
+	}
+	var msgs int64
+	for ci, compress := range []bool{false, true} {
+		if c.Abort.Load() {
+			break
+		}
+		opts := rpc.Default()
+		opts.Compression = compress
+		server := rpc.NewServer("127.0.0.1:0", rpc.HandleFunc(srvSide.handle), logger, opts)
+		if st := server.Start(); !st.OK() {
+			res.Inconcl("long streams: rpc server start: %v", st)
+			continue
+		}
+		select {
+		case <-server.Listening().Wait():
+		case <-time.After(10 * time.Second):
+			res.Inconcl("long streams: rpc server not listening")
+			continue
+		}
+		cl := rpc.NewClient(server.Address(), rpc.ClientMode_OnDemand, logger, opts)
+		var wg sync.WaitGroup
+		for bi, b := range []int{bClientStream, bServerStream, bBidi, bClientStream} {
+			wg.Add(1)
+			go func(bi, b int) {
+				defer wg.Done()
+				call := rpcCall{id: nextID(), behaviour: b, k: k, size: 30}
+				res.Eval(1)
+				var v string
+				pv, stack := runner.Catch(func() { v, _ = doCall(noCtx, cl, call, false) })
+				if pv != nil {
+					res.Violate("c04:"+runner.PanicKey(pv, stack), fmt.Sprintf("panic in a long streaming call: %v", pv), runner.TrimStack(stack))
+					return
+				}
+				if v != "" {
+					res.Violate("c04:long-stream:"+behaviourNames[b]+":"+normText(v), fmt.Sprintf("call %d (%s, %d stream messages, compression=%v): %s", call.id, behaviourNames[b], k, compress, v),
+						map[string]any{"stream": "C04/long-streams", "index": ci*4 + bi, "call_id": call.id, "behaviour": behaviourNames[b], "stream_len": k, "compression": compress})
+					return
+				}
+				res.Nontrivial(call.id)
+				atomic.AddInt64(&msgs, int64(k))
+			}(bi, b)
+		}
+		if !WaitTimeout(&wg, 2*Watchdog) {
+			res.Violate("c04:long-stream:stall", fmt.Sprintf("long streaming calls did not finish within %v; goroutines:\n%s", 2*Watchdog, Goroutines(8)), nil)
+			c.Abort.Store(true)
+		}
+		cl.Close()
+		select {
+		case <-server.Stop():
+		case <-time.After(10 * time.Second):
+		}
+	}
+	res.Count("long_stream_messages", msgs)
 }
